@@ -13,6 +13,7 @@ mod packet;
 mod proj;
 mod rdata;
 mod reparse;
+mod resp;
 mod replay;
 mod store;
 mod txt;
@@ -48,6 +49,7 @@ fn main() {
         "framing" => hostile::run_framing(&a),
         "hostile" => hostile::run_hostile(&a),
         "e2e" => e2e::run(&a),
+        "resprun" => resp::run(&a),
         t => {
             eprintln!("unknown topic {t}");
             std::process::exit(2);
